@@ -26,6 +26,12 @@ func isLow32(v ssa.Value, src ssa.Value) bool {
 	if x, k, ok := asBinConst(v, token.AND); ok && uint64(k) == 0xffffffff && stripConvTo(x) == src {
 		return true
 	}
+	// (x << 32) >> 32 in an unsigned 64-bit type: the upper half is shifted out, zeros come back in
+	if x, k, ok := asBinConst(v, token.SHR); ok && k == 32 && isUnsigned(v.Type()) && intWidth(v.Type()) == 64 {
+		if y, k2, ok := asBinConst(x, token.SHL); ok && k2 == 32 && y == src {
+			return true
+		}
+	}
 	// an in-module accessor applied to src whose own single result is the low 32 bits of its parameter (PathMask(p))
 	if call, ok := v.(*ssa.Call); ok && len(call.Common().Args) == 1 && call.Common().Args[0] == src {
 		if f := call.Common().StaticCallee(); f != nil && len(f.Blocks) == 1 && len(f.Params) == 1 && strings.HasPrefix(funcFullName(f), "github.com/openacid/low/") {
@@ -39,9 +45,24 @@ func isLow32(v ssa.Value, src ssa.Value) bool {
 
 func stripConvTo(v ssa.Value) ssa.Value { return v }
 
+// isIdxToPathTable: v is the table bmtree.idxToPath as an index base - the loaded slice of slices (var idxToPath =
+// [][]uint64{...}) or the array variable itself (var idxToPath = [...][]uint64{...}).
+func isIdxToPathTable(v ssa.Value) bool {
+	if u, ok := v.(*ssa.UnOp); ok && isGlobal(u.X, "bmtree", "idxToPath") {
+		return true
+	}
+	return isGlobal(v, "bmtree", "idxToPath")
+}
+
 // asPopcountLoop: v is the round counter of `n := 0; for m := x; m != 0; m &= m-1 { n++ }` (each round clears the
 // lowest set bit of m), i.e. the popcount of x. Returns x.
-func asPopcountLoop(v ssa.Value) (ssa.Value, bool) {
+func asPopcountLoop(v ssa.Value) (ssa.Value, bool) { return asBitLoop(v, "popcount") }
+
+// asBitLenLoop: v is the round counter of `n := 0; for m := x; m != 0; m >>= 1 { n++ }`: the bit length of x
+// (64 - LeadingZeros64 for a 64-bit x, 32 - LeadingZeros32 for a 32-bit one). Returns x.
+func asBitLenLoop(v ssa.Value) (ssa.Value, bool) { return asBitLoop(v, "bitlen") }
+
+func asBitLoop(v ssa.Value, kind string) (ssa.Value, bool) {
 	n, ok := stripConv(v).(*ssa.Phi)
 	if !ok || !isLoopHeaderPhi(n) {
 		return nil, false
@@ -69,6 +90,13 @@ func asPopcountLoop(v ssa.Value) (ssa.Value, bool) {
 		for i, e := range m.Edges {
 			if !hb.Dominates(hb.Preds[i]) {
 				init = e
+				continue
+			}
+			if kind == "bitlen" {
+				// m >>= 1 on an unsigned value
+				if x, k, okS := asBinConst(e, token.SHR); !okS || x != ssa.Value(m) || k != 1 || !isUnsigned(m.Type()) {
+					okM = false
+				}
 				continue
 			}
 			a, b, ok := asBin(e, token.AND)
@@ -233,6 +261,13 @@ func runC10(c *Ctx, w *World, r *Report) {
 		bad := ""
 		for _, ret := range returnsOf(fn) {
 			if call, ok := asCall(ret.Results[0], "math/bits.Len32"); ok && isLow32(call.Common().Args[0], fn.Params[0]) {
+				continue
+			}
+			// the bit length counted by shifting the mask out: the number of rounds of `for m := mask; m != 0; m >>= 1`
+			if arg, isLoop := asBitLenLoop(ret.Results[0]); isLoop {
+				if !isLow32(arg, fn.Params[0]) {
+					bad = "PathHeight counts the bit length of something other than the low 32 bits"
+				}
 				continue
 			}
 			L := fa.Lin(ret.Results[0])
@@ -519,8 +554,7 @@ func runC05(c *Ctx, w *World, r *Report) {
 		if !ok {
 			return
 		}
-		u, ok := ia.X.(*ssa.UnOp)
-		if !ok || !isGlobal(u.X, "bmtree", "idxToPath") {
+		if !isIdxToPathTable(ia.X) {
 			return
 		}
 		nsel++
@@ -606,7 +640,7 @@ func runC05(c *Ctx, w *World, r *Report) {
 			if ia, ok := ins.(*ssa.IndexAddr); ok {
 				if ld, ok := ia.X.(*ssa.UnOp); ok {
 					if ia2, ok := ld.X.(*ssa.IndexAddr); ok {
-						if u, ok := ia2.X.(*ssa.UnOp); ok && isGlobal(u.X, "bmtree", "idxToPath") {
+						if isIdxToPathTable(ia2.X) {
 							rowIdx = stripConv(ia.Index)
 						}
 					}
@@ -688,7 +722,7 @@ func runC05(c *Ctx, w *World, r *Report) {
 			if ia, ok := ins.(*ssa.IndexAddr); ok {
 				if ld, ok := ia.X.(*ssa.UnOp); ok {
 					if ia2, ok := ld.X.(*ssa.IndexAddr); ok {
-						if u, ok := ia2.X.(*ssa.UnOp); ok && isGlobal(u.X, "bmtree", "idxToPath") {
+						if isIdxToPathTable(ia2.X) {
 							rowIdx = ia.Index
 						}
 					}
